@@ -136,6 +136,7 @@ func atPositions(bad interface{}) []interface{} {
 }
 
 func runC13(r *Result, d *drv.Driver, tier string, seed int64, replay string) {
+	defer drainDestFindings(r)
 	nRand := 4000
 	if tier == "thorough" {
 		nRand = 60000
